@@ -2820,8 +2820,9 @@ int link_function_mips(
           return -1;
         }
 
+        // The field holds bits 27..2 of the target.
         opcode = opcode & 0xfc000000;
-        opcode |= address >> 2;
+        opcode |= (address >> 2) & 0x03ffffff;
       }
     }
 
